@@ -7,7 +7,7 @@ from props.c04 import target_reg, tally  # noqa: F401
 ID = 'C05'
 DOMAIN = 'gin/eval'
 PROPS_FILES = ['Gin/Props/C05.lean']
-ANCHOR_FILES = ['config.py', 'config_parser.py']
+ANCHOR_FILES = ['config.py', 'config_parser.py', 'selector_map.py']
 RULE = ('1-2 consumer probes, 1-2 target probes; macros (plain and scope-like names) defined and redefined before and '
         'after their uses across several parse_config calls and programmatic binds, some bound to evaluated references; '
         'constants with shared dotted suffixes defined in and out of interactive mode (valid, invalid, duplicate names), '
@@ -92,6 +92,8 @@ def gen_case(rng):
       ops.append({'op': 'interactive', 'on': interactive})
     elif r < 0.84:
       ops.append({'op': 'macrolookup', 'name': rng.choice(['X', 'd.X', 'Y', 'Z', 'm1', 'q.Y', 'nope.X'])})
+    elif r < 0.88:  # a reset that keeps the constants: they must stay the very same objects
+      ops.append({'op': 'clear', 'constants': False})
     else:          # consuming call
       c = rng.choice(consumers)
       call = G.gen_call(rng, c, G.gen_enter(rng, rng.choice(scopes)), w_bad=0.0)
